@@ -11,7 +11,8 @@ CLAIMED = {
     "C18": dict(
         text="Theorems over the Gallina model of StaticRoleResolver.expand (all graphs, all role lists, no bound): "
              "result = reflexive-transitive closure, sorted, duplicate-free, fuel never exhausted (termination on "
-             "cyclic graphs), empty for no roles. The closure theorem makes the model's output the only output the "
+             "cyclic graphs), empty for no roles; closure-operator laws on sets of roles (extensive, closed under edges, monotone, "
+             "idempotent, blind to order/repetition of the given roles, union). The closure theorem makes the model's output the only output the "
              "property allows, so the correspondence run (model extracted to OCaml vs /repo/src on enumerated and "
              "random graphs, and through Guard with sync/async/raising resolvers) reports any difference as a "
              "violation with the differing case as replay.",
